@@ -22,8 +22,8 @@ Print Assumptions C09_existing_ids_below.
 (* a whole batch: existing comment records are kept as a prefix, every added record has a fresh session id *)
 Theorem C09_comment_records : forall d author ts edits orc,
   let nd := normalize_doc d in
-  let '(d', _, _, _) := apply_edits d author ts edits orc in
-  wf_ids nd -> exists cs, d_comments d' = d_comments nd ++ cs /\ Forall (fun c => Ccom (next_comment_id nd) (c_id c) = true) cs.
+  let '(d', _, _, _, nn) := apply_edits d author ts edits orc in
+  wf_ids nd -> nn = 0 -> exists cs, d_comments d' = d_comments nd ++ cs /\ Forall (fun c => Ccom (next_comment_id nd) (c_id c) = true) cs.
 Proof. intros d author ts edits orc. pose proof (engine_contract d author ts edits orc) as H. cbn zeta in *.
-  destruct (apply_edits d author ts edits orc) as [[[d' ap] sk] out]. intros W. exact (proj2 (proj2 (proj1 (proj1 H W)))). Qed.
+  destruct (apply_edits d author ts edits orc) as [[[[d' ap] sk] out] nn]. intros W E. exact (proj2 (proj2 (proj1 (proj1 H W E)))). Qed.
 Print Assumptions C09_comment_records.
